@@ -42,6 +42,8 @@ var spendReasons = map[string]bool{"txn: input not unspent": true, "double spend
 var hourReasons = map[string]bool{"txn: insufficient hours": true, "txn: input hours sum overflow": true}
 
 type ledgerSim struct {
+	refused map[int][]model.Block // per node: blocks it has refused so far (they may be offered again, see opReoffer)
+	early   map[model.Hash]bool   // header hashes of refused blocks that were ahead of the node's head when refused
 	c     *sim.Ctx
 	w     *world
 	prop  string
@@ -547,6 +549,23 @@ func (s *ledgerSim) submitBlock(n *node, b model.Block, label string, kind byte)
 	accepted := err == nil
 	c.Kind(kind, accepted)
 	c.Logf("block n%d %s seq=%d time=%d ntx=%d -> accepted=%v (model %s:%s)", n.id, label, b.Head.BkSeq, b.Head.Time, len(b.Txns), accepted, verdict.V, verdict.Reason)
+	if !accepted && !strings.HasPrefix(label, "re-offer") {
+		if s.refused == nil {
+			s.refused = map[int][]model.Block{}
+		}
+		if l := s.refused[n.id]; len(l) < 12 {
+			s.refused[n.id] = append(l, b)
+		}
+		if b.Head.BkSeq > n.m.Head().Head.BkSeq+1 && !s.early[b.Head.Hash()] {
+			if s.early == nil {
+				s.early = map[model.Hash]bool{}
+			}
+			s.early[b.Head.Hash()] = true
+			s.c.Count("probe.block_refused_as_too_early")
+			// kept beyond the cap: these are the ones that matter later
+			s.refused[n.id] = append(s.refused[n.id], b)
+		}
+	}
 	if accepted {
 		c.Count("block.accepted")
 	} else {
@@ -642,6 +661,11 @@ func (s *ledgerSim) acceptedBlockOracles(n *node, b *model.Block, pre preState) 
 				sig := "out>in"
 				if hout.BitLen() > 64 {
 					sig = "out>in:output-hour-sum-wraps-64-bit"
+				}
+				if c.KnownHit("hours-created", sig, "node %d accepted txn %s whose outputs hold %s hours while its inputs accrued %s at the previous block time %d", n.id, short(t.Hash()), hout, hin, pre.headTime) {
+					// a recorded finding (the model accepts such blocks too, so the run can go on and look at what
+					// happens to the outputs it created)
+					continue
 				}
 				c.Violate("hours-created", sig, "node %d accepted txn %s whose outputs hold %s hours while its inputs accrued %s at the previous block time %d", n.id, short(t.Hash()), hout, hin, pre.headTime)
 				return
@@ -884,16 +908,81 @@ func sharesInput(a, b *model.Txn) bool {
 
 // opDeliver: hand one of the publisher's real blocks to a follower, in order,
 // out of order or repeatedly.
+// opReoffer: a block the node has refused before is offered again - unchanged (it may fit now), or with the
+// signature replaced (another key, another block's signature, zeroes, one bit flipped).  Whatever the node
+// remembers about the first offer, the verdict must be the one the rules give now.
+func (s *ledgerSim) opReoffer() bool {
+	t := s.c.T
+	var ids []int
+	for id, l := range s.refused {
+		if len(l) > 0 {
+			ids = append(ids, id)
+		}
+	}
+	if len(ids) == 0 {
+		return false
+	}
+	sort.Ints(ids)
+	id := ids[t.Int("reoffer-node", len(ids))]
+	var n *node
+	for _, x := range s.w.nodes {
+		if x.id == id {
+			n = x
+		}
+	}
+	if n == nil || n.publisher {
+		return false
+	}
+	l := s.refused[id]
+	// prefer blocks that would extend the node's chain now (refused earlier only because they came too early)
+	var fits []model.Block
+	hd := n.m.Head().Head
+	for _, x := range l {
+		if x.Head.BkSeq == hd.BkSeq+1 && x.Head.Prev == hd.Hash() && s.early[x.Head.Hash()] {
+			fits = append(fits, x)
+		}
+	}
+	if len(fits) > 0 && t.Chance("reoffer-fitting", 3, 4) {
+		l = fits
+		s.c.Count("probe.reoffered_block_fits_now")
+	}
+	b := l[t.Int("reoffer-block", len(l))]
+	b.Txns = append([]model.Txn{}, b.Txns...)
+	label := "re-offer"
+	switch t.Pick("reoffer-sig", 3, 2, 2, 1, 1) {
+	case 1:
+		signBlock(&b, &s.w.forger)
+		label = "re-offer:sig-other-key"
+	case 2:
+		if len(s.pubBlocks) > 0 {
+			b.Sig = s.pubBlocks[t.Int("reoffer-other-sig", len(s.pubBlocks))].Sig
+		}
+		label = "re-offer:sig-of-another-block"
+	case 3:
+		b.Sig = model.Sig{}
+		label = "re-offer:sig-null"
+	case 4:
+		b.Sig[t.Int("reoffer-sig-byte", 64)] ^= 1 << t.Draw("reoffer-sig-bit", 8)
+		label = "re-offer:sig-flip"
+	}
+	s.c.Count("fault.refused_block_offered_again")
+	s.submitBlock(n, b, label, kDeliver)
+	return true
+}
+
 func (s *ledgerSim) opDeliver() {
 	if len(s.w.nodes) < 2 || len(s.pubBlocks) == 0 {
 		return
 	}
 	t := s.c.T
+	if t.Chance("reoffer", 1, 5) && s.opReoffer() {
+		return
+	}
 	f := s.w.nodes[1+t.Int("follower", len(s.w.nodes)-1)]
 	next := len(f.m.Chain) // seq wanted
 	var seq int
 	label := "next"
-	switch t.Pick("deliver-which", 8, 1, 1, 1) {
+	switch t.Pick("deliver-which", 8, 1, 1, 2) {
 	case 0:
 		seq = next
 	case 1:
@@ -916,9 +1005,73 @@ func (s *ledgerSim) opDeliver() {
 }
 
 // opForge: the key-holding forger crafts a block for a node.
+// opForgePair: two valid consecutive blocks arrive in the wrong order - the second first (too early: refused),
+// then the first (accepted); then the second is offered again, unchanged or with its signature replaced.  What the
+// node concluded about the second block when it first saw it must not decide the second offer.
+func (s *ledgerSim) opForgePair() bool {
+	c := s.c
+	t := c.T
+	if len(s.w.nodes) < 2 {
+		return false
+	}
+	n := s.w.nodes[1+t.Int("follower", len(s.w.nodes)-1)]
+	m := n.m
+	tx1, ok := s.w.mkSpend(m, false)
+	if !ok {
+		return false
+	}
+	b1 := mkBlock(m, []model.Txn{tx1}, m.Head().Head.Time+1+t.Draw("pair-dt", 100))
+	signBlock(&b1, &s.w.pubKey)
+	if v := m.CheckBlock(&b1); v.V != model.Accept {
+		return false
+	}
+	work := m.Clone()
+	work.Apply(b1)
+	tx2, ok := s.w.mkSpend(work, false)
+	if !ok {
+		return false
+	}
+	b2 := mkBlock(work, []model.Txn{tx2}, b1.Head.Time+1+t.Draw("pair-dt", 100))
+	signBlock(&b2, &s.w.pubKey)
+	if v := work.CheckBlock(&b2); v.V != model.Accept {
+		return false
+	}
+	s.known = append(s.known, tx1, tx2)
+	c.Count("fault.blocks_arrive_in_reverse_order")
+	s.submitBlock(n, b2, "pair:second-first", kForge)
+	if c.Failed() || s.desync {
+		return true
+	}
+	if !s.submitBlock(n, b1, "pair:first", kForge) || c.Failed() || s.desync {
+		return true
+	}
+	again := b2
+	again.Txns = append([]model.Txn{}, b2.Txns...)
+	label := "re-offer:pair-second"
+	switch t.Pick("pair-sig", 2, 2, 1, 1, 1) {
+	case 1:
+		signBlock(&again, &s.w.forger)
+		label += ":sig-other-key"
+	case 2:
+		again.Sig = b1.Sig
+		label += ":sig-of-another-block"
+	case 3:
+		again.Sig = model.Sig{}
+		label += ":sig-null"
+	case 4:
+		again.Sig[t.Int("pair-sig-byte", 64)] ^= 1 << t.Draw("pair-sig-bit", 8)
+		label += ":sig-flip"
+	}
+	s.submitBlock(n, again, label, kForge)
+	return true
+}
+
 func (s *ledgerSim) opForge() {
 	c := s.c
 	t := c.T
+	if t.Chance("forge-pair", 1, 10) && s.opForgePair() {
+		return
+	}
 	n := s.pickNode()
 	if n.publisher && len(s.w.nodes) > 1 && t.Chance("forge-prefers-follower", 3, 4) {
 		n = s.w.nodes[1+t.Int("follower", len(s.w.nodes)-1)]
@@ -929,7 +1082,15 @@ func (s *ledgerSim) opForge() {
 	var txns []model.Txn
 	ntx := 1 + t.Pick("forge-ntx", 6, 3, 1)
 	for i := 0; i < ntx; i++ {
-		switch t.Pick("forge-txn-src", 5, 3, 2, 1) {
+		switch t.Pick("forge-txn-src", 5, 3, 2, 1, 2) {
+		case 4:
+			// an input whose accrued hours have passed 2^64 (it counts as zero inside blocks) together with an
+			// ordinary one, in either order, with output hours at and around what the ordinary input alone gives
+			if tx, ok := s.w.mkOverflowCombo(m); ok {
+				txns = append(txns, tx)
+				s.known = append(s.known, tx)
+				c.Count("probe.overflow_input_combined_with_ordinary_input")
+			}
 		case 0:
 			work := m
 			if len(txns) > 0 && t.Chance("forge-chain-spend", 1, 3) {
@@ -1097,7 +1258,23 @@ func (s *ledgerSim) opForge() {
 		b.Sig = model.Sig{}
 	}
 	c.Count("bm." + bmNames[bm])
-	s.submitBlock(n, b, "forged:"+bmNames[bm], kForge)
+	if s.submitBlock(n, b, "forged:"+bmNames[bm], kForge) && !c.Failed() && !s.desync {
+		// an accepted block that created an output just below 2^64 hours: half of the time somebody spends it at
+		// once, while it is still spendable (it stops being so as soon as the head time moves on)
+		for i := range b.Txns {
+			for j, o := range b.Txns[i].Out {
+				if o.Hours >= ^uint64(0)-2000 && o.Coins >= 1000000 && t.Chance("spend-near-max-now", 1, 2) {
+					id := model.UxID(b.Txns[i].Hash(), o)
+					_ = j
+					if tx, ok := s.w.mkSpendOf(n.m, []model.Hash{id}, 0); ok {
+						c.Count("probe.near_max_hours_output_spent_while_fresh")
+						s.submitTxn(n, tx, false, kInject, "spend-near-max-hours-output")
+					}
+					return
+				}
+			}
+		}
+	}
 }
 
 func min64(a, b uint64) uint64 {
